@@ -1096,7 +1096,7 @@ impl RtpTransport {
                 "has_session": has_session,
                 "outcome": outcome,
                 "ssrc": ssrc,
-                "seq": seq,
+                "pkt_seq": seq,
             }),
         );
     }
